@@ -30,3 +30,13 @@ ASSUMPTIONS = ['buffer capacity bounded at 16 bytes (allocation of symbolic size
                'text bytes restricted to ASCII (harness builds &str with from_utf8_unchecked)']
 EXPLANATION = ('Function contracts on CStrWriter::{new,write,finish} and write_c_str, proved by Kani/CBMC over all buffer '
                'contents, all capacities 0..=16, all nw in usize, all fragment contents; write is proved modularly against its in-place contract and reused as a verified stub.')
+MANIFEST = {
+    'text': 'Proof (bounded in buffer size only): Kani/CBMC discharges function contracts on CStrWriter::{new,write,finish} and '
+            'write_c_str for every buffer capacity 0..=16, all buffer contents, every nw in usize (saturation included) and '
+            'three symbolic fragments; write is proved against its in-place contract (proof_for_contract) and reused as a verified stub. '
+            'Tests sample two strings and three buffer sizes; the contract covers all multi-fragment texts and all sizes up to the bound, '
+            'including guard bytes beyond the slice.',
+    'note': 'Trusted: Kani/CBMC; core::fmt drives write_str per fragment (executed for a 3-fragment Display). Bound: capacity <= 16, '
+            'fragment <= 6 bytes; ASCII text. Index arithmetic is over full usize.',
+    'technique': 'Kani function contracts (requires/ensures/modifies, proof_for_contract, stub_verified) + CBMC',
+}
